@@ -21,7 +21,7 @@ RULE = ("schemas with required fields (with and without defaults), schema-level 
         "are own required fields / schema validators of a disabled sub-configuration; inserted list items with a "
         "missing required field must be rejected; non-trivial = >= 1 returning call judged plus >= 1 further call (returning or raising); distinct = "
         "distinct (schema, calls)")
-REQUIRED = ("reinsertions_of_invalidated_members", "calls_returned_judged", "calls_raised", "required_walks", "validator_log_checks", "collect_mode_compared",
+REQUIRED = ("loads_with_empty_required_values", "reinsertions_of_invalidated_members", "calls_returned_judged", "calls_raised", "required_walks", "validator_log_checks", "collect_mode_compared",
             "exemption_cases_judged", "list_item_insertions_judged", "call:load_tree", "call:loads", "call:load", "call:validate",
             "flags_off_seen", "failing_validators_seen")
 ASSUMPTIONS = ["one-directional: nothing is demanded of calls that raise, except the exemption of disabled sub-configurations",
@@ -57,6 +57,24 @@ def decorate(rng, node, depth=0):
                 ch["params"]["validator"] = rng.choice(["pass"] * 6 + ["fail", "boom"])
 
 
+def _empty_some_required(rng, node, tree):
+    """Give some required string / list / dict fields an EMPTY value in a load tree (in place); True when one was."""
+    done = False
+    for ch in model.stored_children(node):
+        k = ch["key"]
+        if ch["kind"] in ("schema", "ctype"):
+            if isinstance(tree.get(k), dict):
+                done = _empty_some_required(rng, ch, tree[k]) or done
+        elif ch.get("params", {}).get("required") and ch["family"] in ("str", "list", "dict", "host", "loglevel") and rng.random() < 0.5:
+            tree[k] = {"list": [], "dict": {}}.get(ch["family"], "")
+            done = True
+        elif ch["family"] == "list" and ch.get("item") and ch["item"]["kind"] != "field" and isinstance(tree.get(k), list):
+            for it in tree[k]:
+                if isinstance(it, dict):
+                    done = _empty_some_required(rng, ch["item"], it) or done
+    return done
+
+
 def generate(rng, ctx):
     thorough = ctx.tier == "thorough"
     fams = ["str", "int", "float", "bool", "port", "host", "loglevel", "list", "dict", "str", "int"]
@@ -72,6 +90,8 @@ def generate(rng, ctx):
             call["tree"] = gen.tree_for(rng, schema, env, valid=True, partial=rng.choice([0.0, 0.2, 0.5, 0.9]))
             if rng.random() < 0.15:
                 call["tree"] = {}
+            elif rng.random() < 0.2:
+                call["emptied"] = _empty_some_required(rng, schema, call["tree"])
             call["fmt"] = rng.choice(trees.FORMATS)
         if kind == "insert":
             lists = [(p, nd) for p, nd in spec.walk(schema) if nd["kind"] == "field" and nd["family"] == "list"
@@ -230,6 +250,8 @@ def run(case, ctx, res):
         if collected and not all(isinstance(e, cc.ValidationError) for e in collected):
             res.viol("M-collect", "collect-mode-types", "collected errors are %r" % ([type(e).__name__ for e in collected],))
             return
+        if call.get("emptied"):
+            res.count("loads_with_empty_required_values")
         if err is not None:
             raised += 1
             res.count("calls_raised")
